@@ -94,7 +94,19 @@ def rest(ctx):
     # loop is written as (map + collect, for + push)
     en = [e for p in paths for e in p.calls(r"Iterator>::enumerate$")]
     ok_en = bool(en) and all(S.mentions(e[3][0], lambda x: x == ("sym", "patterns")) for e in en)
+    idx_pos = "0"          # component of the pair that carries the number
     bad = [M.short_name(M.call_name(t)) for f_ in [ap] + list(F.closures_of(ap)) for bb, t in f_.calls(r"Iterator>::(rev|skip|take|filter|filter_map|step_by|skip_while|take_while|chain|zip|cycle)\b|::(sort\w*|reverse|dedup\w*|retain|swap|swap_remove|insert|remove|truncate|pop)$")]
+    if not en:
+        # numbering by zipping with the natural numbers: (0..).zip(patterns) gives (number, pattern), patterns.zip(0..) the reverse
+        def from_zero(x):
+            return x[0] == "adt" and str(x[1]).endswith("RangeFrom") and bool(x[3]) and x[3][0] == ("int", 0)
+        zp = [e for p in paths for e in p.calls(r"Iterator>::zip(::<.*>)?$")]
+        if zp and all(from_zero(e[3][0]) and S.mentions(e[3][1], lambda x: x == ("sym", "patterns")) for e in zp):
+            ok_en, idx_pos = True, "0"
+            bad = [b_ for b_ in bad if b_ != "zip" and not b_.endswith("::zip")]
+        elif zp and all(from_zero(e[3][1]) and S.mentions(e[3][0], lambda x: x == ("sym", "patterns")) for e in zp):
+            ok_en, idx_pos = True, "1"
+            bad = [b_ for b_ in bad if b_ != "zip" and not b_.endswith("::zip")]
     ctx.ob("C01.f", "add_patterns:enumerates-the-given-patterns", ok_en and not bad, "enumerate over %s; reordering/filtering calls %s" % ([S.vstr(e[3][0])[:40] for e in en][:2], bad), ap.loc())
     n_new = 0
     for body in [ap] + list(F.closures_of(ap)):
@@ -107,8 +119,8 @@ def rest(ctx):
                 n_new += 1
                 idx = S.fstr(pn[3][1])
                 txt = S.fstr(ex_b.deref_val(p, pn[3][0]) if pn[3][0][0] == "ref" else pn[3][0])
-                m = re.match(r"^\(?(item@bb\d+|arg2)\)?\.0$", idx)
-                ok = m is not None and (m.group(1) + ".1") in txt.replace("(", "").replace(")", "")
+                m = re.match(r"^\(?(item@bb\d+|arg2)\)?\.%s$" % idx_pos, idx)
+                ok = m is not None and (m.group(1) + "." + ("1" if idx_pos == "0" else "0")) in txt.replace("(", "").replace(")", "")
                 ctx.ob("C01.f", "add_patterns:token-type-is-the-enumerate-index", ok,
                        "Pattern::new(%s, %s) (second argument must be the unmodified index of the pair the text comes from)" % (txt[:50], idx), body.loc())
     ctx.floor("C01.f", "Pattern::new calls in add_patterns", n_new, 1)
